@@ -3,7 +3,9 @@
    has exactly the statement of the proof-level lemma it names (readable statements: Prop/C04.v,
    C05.v, C12.v, C19.v, C26.v).  Everything else is covered only by the configuration-matrix run. *)
 From Coq Require Import ZArith List Bool.
-From CyVerif Require Proof.P_Overflow Proof.P_CIntConv Proof.P_GlobalCache Proof.P_LZSS Proof.P_CMath Proof.P_CmpFloat.
+From CyVerif Require Proof.P_Overflow Proof.P_CIntConv Proof.P_GlobalCache Proof.P_LZSS Proof.P_CMath Proof.P_CmpFloat Proof.P_Freelist.
+From CyVerif Require Import Model.M_Freelist.
+Import ListNotations.
 
 (* Overflow.c: the __builtin_*_overflow branch and the portable arithmetic branch of every
    checking helper return the same value and the same overflow bit *)
@@ -57,6 +59,43 @@ Theorem C39_lzss_compression_neutral : ltac:(let t := type of @P_LZSS.roundtrip 
 Proof. exact @P_LZSS.roundtrip. Qed.
 Print Assumptions C39_lzss_compression_neutral.
 
+(* ModuleNode.py tp_new / tp_dealloc of a @cython.freelist(N) extension type (Model/M_Freelist.v):
+   CYTHON_USE_FREELISTS on or off, CYTHON_USE_TYPE_SPECS on or off (exact-type vs basicsize check), any
+   freelist size, any freelist contents (stale bytes of freed instances), any program of create / set
+   attribute / release / observe steps over any number of variables and instance types: the observations
+   are those of the specification in which every new object has zero C attributes and None object
+   attributes - provided the freelist path zeroes the struct (c_memset, the code as it is) *)
+Theorem C39_freelist_alloc_eq_fresh_alloc : forall (c : cfg) (fl : list blk) (s : store) (p : list op),
+  c_memset c = true -> trace c fl s p = trace_ref (c_nc c) (c_no c) s p.
+Proof. exact P_Freelist.memset_trace_eq_ref. Qed.
+Print Assumptions C39_freelist_alloc_eq_fresh_alloc.
+
+Theorem C39_freelist_config_independent : forall (c1 c2 : cfg) (fl1 fl2 : list blk) (s : store) (p : list op),
+  c_memset c1 = true -> c_memset c2 = true -> c_nc c1 = c_nc c2 -> c_no c1 = c_no c2 ->
+  trace c1 fl1 s p = trace c2 fl2 s p.
+Proof. exact P_Freelist.memset_config_independent. Qed.
+Print Assumptions C39_freelist_config_independent.
+
+(* the variant whose freelist path does not zero the struct is refuted: create, set a C attribute, release,
+   create again, observe - freelists on shows the old value, freelists off shows 0 *)
+Theorem C39_freelist_without_memset_refuted :
+  exists p, trace (mk_cfg true false false 4 1 0) [] [] p <> trace (mk_cfg false false false 4 1 0) [] [] p.
+Proof. exact P_Freelist.nomemset_config_dependent_refuted. Qed.
+Print Assumptions C39_freelist_without_memset_refuted.
+
+(* in either variant the object attributes of every observation are the specified ones (the tp_new
+   initialisation function sets them): only C-typed attributes can expose a recycled block *)
+Theorem C39_freelist_object_attributes_any_variant : forall (c : cfg) (fl : list blk) (s : store) (p : list op),
+  obj_part (trace c fl s p) = obj_part (trace_ref (c_nc c) (c_no c) s p).
+Proof. exact P_Freelist.any_variant_object_attributes_default. Qed.
+Print Assumptions C39_freelist_object_attributes_any_variant.
+
+(* freecount never leaves [0, N]: the freelist array is not indexed out of bounds *)
+Theorem C39_freelist_count_bounded : forall (c : cfg) (fl : list blk) (s : store) (p : list op),
+  (length fl <= c_cap c)%nat -> (length (final_freelist c fl s p) <= c_cap c)%nat.
+Proof. exact P_Freelist.freecount_bounded. Qed.
+Print Assumptions C39_freelist_count_bounded.
+
 Example C39_nonvacuous : M_CMath.div_int 32 true true (-7) 2 = M_CMath.div_int 32 true false (-7) 2.
 Proof. vm_compute. reflexivity. Qed.
 
@@ -68,3 +107,10 @@ Example C39_pyobject_compare_nonvacuous :
   M_CmpFloat.cmp_floatint M_CmpFloat.f_lp64_noint M_CmpFloat.fop M_CmpInt.OpLt f b = Some false /\
   M_CmpFloat.fbranch M_CmpFloat.f_lp64_312 false f b = 4%Z /\ M_CmpFloat.fbranch M_CmpFloat.f_lp64_noint false f b = 7%Z.
 Proof. vm_compute. repeat split. Qed.
+
+(* a recycled block with stale contents 7, 9 / stale references: the new object is still 0, 0 / None *)
+Example C39_freelist_nonvacuous :
+  trace (mk_cfg true false true 2 2 1) [{| b_c := [7; 9]%Z; b_o := [0]%Z |}] [] [ONew 0 TExact; OGet 0; OSetC 0 1 4%Z; OFree 0; ONew 1 TSameSize; OGet 1]
+  = [Some {| b_c := [0; 0]%Z; b_o := [1]%Z |}; Some {| b_c := [0; 0]%Z; b_o := [1]%Z |}] /\
+  length (final_freelist (mk_cfg true false true 2 2 1) [] [] [ONew 0 TExact; ONew 1 TExact; ONew 2 TExact; OFree 0; OFree 1; OFree 2]) = 2%nat.
+Proof. vm_compute. split; reflexivity. Qed.
